@@ -41,9 +41,11 @@ class Actors:
                     self.__events__ = dict(self._inst_events)
 
             def on_add(self, entity, world):
+                it.peek()
                 it.cb('life', self._label, 'on_add', entity, world)
 
             def on_remove(self, entity, world):
+                it.peek()
                 it.cb('life', self._label, 'on_remove', entity, world)
 
             def probe(self, token):
@@ -75,9 +77,11 @@ class Actors:
                 it.proc_called(self, dt)
 
             def on_add(self):
+                it.peek()
                 it.cb('plife', self._label, 'on_add')
 
             def on_remove(self):
+                it.peek()
                 it.cb('plife', self._label, 'on_remove')
 
             def probe(self, token):
@@ -117,6 +121,30 @@ class Actors:
             ns['__bool__'] = lambda self: False
         elif spec.get('falsy') == 'len':
             ns['__len__'] = lambda self: 0
+        if spec.get('inst_cb') and not spec.get('ctrl'):
+            # the lifecycle callbacks are attributes of the *instance* (set
+            # in __init__); the functions of the same names on the class
+            # must never run
+            it = self.interp
+
+            def wrong(name):
+                def f(self, entity, world):
+                    it.cb('wrong_callback', self._label, name)
+                return f
+            for name in ('on_add', 'on_remove', 'attached', 'detached'):
+                ns[name] = wrong(name)
+            base_init = bases[0].__init__
+
+            def __init__(self):
+                base_init(self)
+                for name, which in (('on_add', 'on_add'),
+                                    ('attached', 'on_add'),
+                                    ('on_remove', 'on_remove'),
+                                    ('detached', 'on_remove')):
+                    setattr(self, name, (
+                        lambda e, w, which=which: it.cb(
+                            'life', self._label, which, e, w)))
+            ns['__init__'] = __init__
         if spec.get('eq') == 'equal':       # value equality (a frozen
             ns['__eq__'] = lambda a, b: type(a) is type(b)      # dataclass)
             ns['__hash__'] = lambda a: 11
@@ -203,7 +231,14 @@ class Interp:
             kernel.stream(scenario.get('run_seed', 0), 'sched'),
             scenario.get('run_seed', 0) & 0xffff, self.trace)
         self.actors = Actors(self.desper, self.cfg, self)
-        self.w = self.desper.World()
+        idgen = self.cfg.get('idgen')
+        if idgen:
+            # a custom id generator that comes round again (a pool of ids)
+            import itertools
+            self.w = self.desper.World(
+                lambda: itertools.cycle(range(1, idgen + 1)))
+        else:
+            self.w = self.desper.World()
         self.w2 = None
         kernel.label(self.w, 'w')
         self.ids = [dec_id(x) for x in self.cfg['ids']]
@@ -345,14 +380,14 @@ class Interp:
                 out.append(('probe', f'p{i}', token))
         return out
 
-    def emit(self, groups, entries, ordered=False):
+    def emit(self, groups, entries, ordered=False, origin=None):
         """Queue expected callbacks: now (enabled) or at the next enable."""
         if not entries:
             return
         if self.enabled:
             groups.append((list(entries), ordered))
         else:
-            self.fifo.append(['grp', list(entries), ordered])
+            self.fifo.append(['grp', list(entries), ordered, origin])
             self.probes['postponed_callback'] += len(entries)
 
     def detach(self, i, eid):
@@ -419,6 +454,43 @@ class Interp:
     def life_owner(self, entries=()):
         return ('C02',)
 
+    def peek(self):
+        """A lifecycle callback looks at the world (read-only queries, the
+        results are not judged here: what they must be in the middle of an
+        operation is not stated - but looking must not change anything)."""
+        if not self.cfg.get('peek'):
+            return
+        w = self.w
+        tuple(w.processors)
+        tuple(w.entities)
+        w.get(self.actors.Root)
+        self.probes['callback_peeked_at_world'] += 1
+
+    def op_forget(self, op, start):
+        """Nothing but the world (its queue of postponed callbacks, if any)
+        refers to this detached component any more."""
+        i = op[1]
+        if i in self.where or i not in self.actors.insts:
+            return 'skip'
+        del self.actors.insts[i]
+        self.reg_c.discard(i)
+        if any(g[0] == 'grp' and any(e[1] == f'c{i}' for e in g[1])
+               for g in self.fifo):
+            self.probes['forgotten_with_pending_callbacks'] += 1
+        self.probes['component_forgotten'] += 1
+
+    def op_unregister(self, op, start):
+        """remove_handler by hand on an attached component: it stops
+        listening, its lifecycle callbacks are still owed."""
+        i = op[1]
+        o = self.actors.insts.get(i)
+        if (i not in self.where or o is None or events_of(o) is None
+                or self.depth or self.in_life):
+            return 'skip'
+        self.call(lambda: self.w.remove_handler(o), what='remove_handler')
+        self.reg_c.discard(i)
+        self.probes['unregistered_by_hand'] += 1
+
     def op_create(self, op, start):
         _, eid, insts = op
         eid = None if eid is None else dec_id(eid)
@@ -434,6 +506,11 @@ class Interp:
             if 'K4' in self.tolerate and self.prop not in ('C01', 'C06'):
                 return 'skip'
             self.flags.add('k4_shape')
+        idgen = self.cfg.get('idgen')
+        if eid is None and idgen:
+            if all(k in self.ents for k in range(1, idgen + 1)):
+                return 'skip'       # the pool is exhausted: no id to give
+            self.probes['recycling_id_generator'] += 1
         before = set(self.ents)
         r = self.call(lambda: self.w.create_entity(*objs, entity_id=eid),
                       what=f'create_entity({insts}, id={eid!r})')
@@ -682,6 +759,10 @@ class Interp:
             while self.fifo and self.fifo[0][0] == 'probe':
                 self.close_probe(self.fifo.pop(0), owner)
             if self.fifo:
+                if any(len(g) > 3 and g[3] == 'reap' for g in self.fifo):
+                    # "removed and notified": the notification owed by a
+                    # deferred deletion was postponed and is now lost
+                    owner = tuple(owner) + ('C05',)
                 self.fail(owner, 'callback_missing', f'enable returned but '
                           f'postponed callbacks were not delivered: '
                           f'{[x[1] for x in self.fifo[:3]]}')
@@ -934,7 +1015,7 @@ class Interp:
             self.probes['detach_route.deferred'] += 1
         self.dead.clear()
         self.stale.clear()
-        self.emit(groups, exp)
+        self.emit(groups, exp, origin='reap')
         boom = None
         self.life_ok = True
         try:
@@ -1125,7 +1206,8 @@ class Interp:
         w, A = self.w, self.actors
         strict_cb = not ('k4_shape' in self.flags and 'K4' in self.tolerate)
         try:
-            self._sweep(w, A, strict_cb)
+            with kernel.budget(OP_BUDGET * 4, charge=False):
+                self._sweep(w, A, strict_cb)
         except Violation:
             raise
         except SimHang as e:
@@ -1389,11 +1471,11 @@ WEIGHTS = {
     'C02': dict(create=3, create_id=1, add=3, add_replace=2, remove=2.5,
                 delete=1.5, delete_now=1.5, touch=.5, process=1.5, clear=.8,
                 disable=1.5, enable=2, probe=1.2, add_proc=.2,
-                remove_proc=.1, defclass=.1),
+                remove_proc=.1, defclass=.1, forget=.7, unregister=.3),
     'C05': dict(create=3, create_id=1, add=2, add_replace=1, remove=1.5,
                 delete=3.5, delete_now=.8, touch=4, process=3.5, clear=.2,
                 disable=.4, enable=.6, probe=.2, add_proc=1, remove_proc=.1,
-                defclass=.1, ghost=.25),
+                defclass=.1, ghost=.25, unregister=.4, forget=.2),
     'C06': dict(create=4, create_id=1, add=4, add_replace=1, remove=3,
                 delete=.7, delete_now=.7, touch=.2, process=.7, clear=.2,
                 disable=.1, enable=.2, probe=.1, add_proc=2, remove_proc=1.2,
@@ -1431,6 +1513,8 @@ def gen_config(prop, rng):
         if rng.random() < .12:
             # container-like components that are falsy when queried
             spec['falsy'] = rng.choice(['bool', 'len'])
+        if handler_p and rng.random() < .1:
+            spec['inst_cb'] = True      # callbacks are instance attributes
         if rng.random() < .12:
             # components with value equality: the world tells objects apart
             # by identity whatever they compare like
@@ -1448,6 +1532,9 @@ def gen_config(prop, rng):
     rng.shuffle(insts)
     insts = insts[:14]
     npc = rng.randint(2, 5) if prop in ('C07', 'C06') else rng.randint(1, 3)
+    many = prop == 'C07' and rng.random() < .04
+    if many:
+        npc = rng.randint(18, 24)       # thresholds of "small list" tricks
     pclasses = []
     for i in range(npc):
         if i == 0 or rng.random() < .4:
@@ -1468,7 +1555,11 @@ def gen_config(prop, rng):
     faults = [f for f in ('raise', 'ghost') if rng.random() < .5]
     if rng.random() < 1 / 3:
         faults = []
-    return {'peq': prop == 'C07' and rng.random() < .25,
+    return {'peq': prop == 'C07' and rng.random() < .25, 'many_procs': many,
+            'peek': rng.random() < .4,
+            'idgen': (rng.choice([2, 3, 4, 6])
+                      if prop in ('C01', 'C05') and rng.random() < .12
+                      else None),
             'policy': rng.choice(kernel.POLICIES), 'classes': classes,
             'insts': insts, 'pclasses': pclasses, 'pinsts': pinsts,
             'ids': ids, 'faults': faults, 'shape': shape}
@@ -1496,6 +1587,13 @@ class Shadow:
                 if i not in self.where and c in self.defined]
 
     def next_auto(self):
+        n = self.cfg.get('idgen')
+        if n:                       # cycle(range(1, n + 1)), skipping used
+            for _ in range(2 * n):
+                self.auto = self.auto % n + 1
+                if self.auto not in self.rows:
+                    return self.auto
+            return None
         self.auto += 1
         while self.auto in self.rows:
             self.auto += 1
@@ -1505,6 +1603,8 @@ class Shadow:
         n = op[0]
         if n == 'create':
             eid = self.next_auto() if op[1] is None else self.key(op[1])
+            if eid is None:
+                return              # id pool exhausted: the op is skipped
             for i in op[2]:
                 if i in self.where:
                     return
@@ -1678,6 +1778,12 @@ def gen_op(kind, sh, rng, cfg, state):
         late = [i for i, c in enumerate(cfg['classes'])
                 if c.get('late') and i not in sh.defined]
         return ['defclass', rng.choice(late)] if late else None
+    if kind == 'forget':
+        # the program drops its own reference to a detached component
+        return ['forget', rng.choice(free)] if free else None
+    if kind == 'unregister':
+        att = sorted(sh.where)
+        return ['unregister', rng.choice(att)] if att else None
     if kind == 'ghost':
         if 'ghost' not in cfg['faults']:
             return None
@@ -1710,6 +1816,21 @@ def generate(prop, run_seed, tier='quick', tolerate=frozenset()):
     sh = Shadow(cfg)
     state = {'token': 0}
     ops, scripts = [], {}
+    if cfg.get('many_procs'):
+        # every processor type registered, priorities full of ties
+        order = list(range(len(cfg['pinsts'])))
+        crng.shuffle(order)
+        seen = set()
+        for pi in order:
+            if cfg['pinsts'][pi] in seen:
+                continue
+            seen.add(cfg['pinsts'][pi])
+            op = ['add_proc', pi, crng.choice([None, 0, 1, 0, 1, -1])]
+            ops.append(op)
+            sh.apply(op)
+        ops.append(['process', 1])
+        sh.apply(ops[-1])
+        n += len(ops)
     tries = 0
     while len(ops) < n and tries < n * 6:
         tries += 1
